@@ -4,6 +4,9 @@ CONSTANT Threads <- TH
 CONSTANT Obs = {1, 2}
 CONSTANT MaxOps = 2
 CONSTANT Weak = "none"
-INVARIANTS NoCallAfterUnsubscribe NoDeadlock
+CONSTANT OneShots = {}
+CONSTANT NotifyLock = "Read"
+CONSTANT Removal = "inline"
+INVARIANTS NoCallAfterUnsubscribe NoDeadlock ListWriteExclusive NoUseAfterFree OneShotOnce
 PROPERTY NoWriteDuringDelivery
 CHECK_DEADLOCK FALSE
